@@ -665,10 +665,99 @@ func genRandom(o *kit.Out, r *kit.Rand, nVC, nVFC, nMal int) {
 	}
 }
 
+// genCorpus prints the pinned boundary witnesses kept under corpus/C36 (tier "corpus").
+func genCorpus(o *kit.Out) {
+	const H, R, B = 5, 1, 3
+	ids := []int{keyIDs[0], keyIDs[3], keyIDs[5], keyIDs[8]}
+	full := func(vals []vp) *scenario {
+		return &scenario{H: H, B: B, CB: B, new: vals, es: commitFor(vals, H, R, B, allSign(len(vals)), nil)}
+	}
+	nilE := entry{isNil: true}
+	v3 := mkSet(ids[:3], []int64{1, 1, 1})
+	v4 := mkSet(ids, []int64{1, 1, 1, 1})
+	o.Op("// exactly 2/3 of (1,1,1) is not enough; all three is")
+	sc := full(v3)
+	sc.es[1] = nilE
+	emit(o, sc)
+	emit(o, full(v3))
+	o.Op("// total = MaxTotalVotingPower: floor(2T/3) rejected, +1 accepted (int64 total*2 does not wrap)")
+	q := maxTotal / 3 * 2 // T = 2^60-1 is divisible by 3
+	for _, d := range []int64{0, 1} {
+		vm := mkSet(ids[:2], []int64{q + d, maxTotal - q - d})
+		sc = full(vm)
+		sc.es[1] = nilE
+		emit(o, sc)
+	}
+	o.Op("// 3 of 4 sign the block, the 4th strays with a CORRUPT signature: rejected (err:sig) although > 2/3 signed")
+	sc = full(v4)
+	sc.es[3] = honest(v4, 3, H, R, B+1)
+	sc.es[3].sig = "X" + sc.es[3].sig[1:]
+	emit(o, sc)
+	o.Op("// the same with a VALID stray signature: accepted")
+	sc = full(v4)
+	sc.es[3] = honest(v4, 3, H, R, B+1)
+	emit(o, sc)
+	o.Op("// ValidatorAddress / ValidatorIndex of an entry are never checked by VerifyCommit: accepted")
+	sc = full(v4)
+	sc.es[0].vaddr, sc.es[0].vidx = fakeIDs[0], 17
+	sc.es[1].vaddr, sc.es[1].vidx = sc.es[2].vaddr, -1
+	emit(o, sc)
+	o.Op("// an entry copied into another slot fails under that slot's key")
+	sc = full(v4)
+	sc.es[2] = sc.es[1]
+	emit(o, sc)
+	o.Op("// all-nil commit: Height() is 0, so height 5 fails on height, height 0 on power; genesis shape on the empty set")
+	emit(o, &scenario{H: H, B: B, CB: B, new: v3, es: make3nil(3)})
+	emit(o, &scenario{H: 0, B: B, CB: B, new: v3, es: make3nil(3)})
+	emit(o, &scenario{H: 0, B: 0, CB: 0, new: nil})
+	emit(o, &scenario{H: 0, B: 0, CB: 0, new: v3})
+	o.Op("// precommits for the nil block, all valid: a commit cannot be for the nil block")
+	emit(o, &scenario{H: H, B: 0, CB: 0, new: v3, es: commitFor(v3, H, R, 0, allSign(3), nil)})
+	o.Op("// first non-nil entry decides Height()/Round(): a later entry of another round / height / type")
+	for _, m := range []func(e *entry){func(e *entry) { e.round++ }, func(e *entry) { e.height++ }, func(e *entry) { e.typ = 1 }} {
+		sc = full(v3)
+		m(&sc.es[2])
+		emit(o, sc)
+	}
+	sc = full(v3)
+	sc.es[0].height++
+	emit(o, sc)
+	o.Op("// future commit: old = {a:5, b:3, x:2}, new = {a,b,c,d}; a and b sign -> 8/10 of old")
+	old := []vp{{ids[0], 5}, {ids[1], 3}, {keyIDs[10], 2}}
+	fs := &scenario{future: true, H: H, B: B, CB: B, old: old, new: v4, es: commitFor(v4, H, R, B, []bool{true, true, false, true}, func(int) int { return 0 })}
+	emit(o, fs)
+	o.Op("// old signers hold exactly 2/3 of old (2 of 1,1,1): err:fpower")
+	fs2 := clone(fs)
+	fs2.old = []vp{{ids[0], 1}, {ids[1], 1}, {keyIDs[10], 1}}
+	emit(o, fs2)
+	o.Op("// entry 3 (signed by d) names old validator x: verified under x's key -> err:fsig")
+	fs3 := clone(fs)
+	fs3.es[3].vaddr = keyIDs[10]
+	emit(o, fs3)
+	o.Op("// entry 0 (validator a) strays, entry 3 names a's address again for the block: a is judged by its FIRST entry -> err:fpower")
+	fs4 := clone(fs)
+	fs4.es[0].bid = B + 1
+	fs4.es[2] = honest(v4, 2, H, R, B)
+	fs4.es[3].vaddr = ids[0]
+	emit(o, fs4)
+	o.Op("// a later entry naming an already-judged address is skipped even though it does not verify under that key: accepted")
+	fs5 := clone(fs)
+	fs5.es[3].vaddr = ids[0]
+	emit(o, fs5)
+	o.Op("// disjoint old set: nobody of old signed")
+	fs6 := clone(fs)
+	fs6.old = []vp{{keyIDs[10], 1}, {keyIDs[11], 1}}
+	emit(o, fs6)
+}
+
 func gen(o *kit.Out, r *kit.Rand, tier string) {
+	if tier == "corpus" {
+		genCorpus(o)
+		return
+	}
 	genBoundary(o, r.Fork(), tier)
 	if tier == "thorough" {
-		genRandom(o, r.Fork(), 12000, 12000, 6000)
+		genRandom(o, r.Fork(), 16000, 16000, 8000)
 	} else {
 		genRandom(o, r.Fork(), 1500, 1500, 700)
 	}
